@@ -160,13 +160,13 @@ type Result struct {
 
 // RunPipe drives one session through the real per-connection loop over net.Pipe: every element of writes
 // arrives as exactly one server read (writes are kept <= 60000 bytes by the callers).
-func RunPipe(d consts.ActiveSafetyType, writes [][]byte, fe func(started *atomic.Int64) attachment.FileEventer) Result {
+func RunPipe(d consts.ActiveSafetyType, writes [][]byte, wantReplies int, fe func(started *atomic.Int64) attachment.FileEventer) Result {
 	var started atomic.Int64
 	g := attachment.New(attachment.WithActiveSafetyType(d), attachment.WithFileEventerFunc(func() attachment.FileEventer { return fe(&started) }))
 	cli, srv := net.Pipe()
 	done := make(chan struct{})
 	go func() { attachment.VerifServeConn(g, srv); close(done) }()
-	return drive(cli, writes, &started, done, 0)
+	return drive(cli, writes, &started, done, wantReplies)
 }
 
 // wantReplies > 0 (TCP, asynchronous): wait (bounded by a 20 s watchdog) until that many frames came back before closing.
@@ -224,8 +224,10 @@ func drive(cli net.Conn, writes [][]byte, started *atomic.Int64, done chan struc
 	}
 	// the last reply is written by the server after it consumed the last write: wait (bounded) until the reply count is stable
 	if wantReplies > 0 && !res.WriteErr {
+		// wait for the reply to the last control frame (the callers end every session with a sentinel frame): decided by
+		// order, not by time; the server loop ending (done) or the 20 s watchdog end the wait
 		deadline := time.Now().Add(20 * time.Second)
-		for time.Now().Before(deadline) {
+		for time.Now().Before(deadline) && !serverEnded.Load() {
 			rmu.Lock()
 			n := len(res.Replies)
 			rmu.Unlock()
@@ -234,6 +236,11 @@ func drive(cli net.Conn, writes [][]byte, started *atomic.Int64, done chan struc
 			}
 			time.Sleep(200 * time.Microsecond)
 		}
+		rmu.Lock()
+		if len(res.Replies) < wantReplies && !serverEnded.Load() {
+			res.TimedOut = true
+		}
+		rmu.Unlock()
 	}
 	last, stable := -1, 0
 	for i := 0; i < 4000 && stable < 3; i++ {
